@@ -516,6 +516,7 @@ def sk_ndarray(tier):
                 if shape == "rank-1" and k == 0:
                     continue
                 out.append({"x": ALPHA[:k], "via": via, "shape": shape})
+        out.append({"x": ALPHA[:k], "via": "set_values", "shape": "flodym_array"})
     return out
 
 
@@ -538,6 +539,16 @@ def u_assign_ndarray(W, sk):
         shape = [W.size_of(W.dim(l, tag=f"m_{l}")) for l in sk["x"]]
     elif sk["shape"] == "rank-1":
         shape = list(own[1:])
+    elif sk["shape"] == "flodym_array":
+        # set_values(<FlodymArray>) is refused whatever its dimensions; the refusal must not leave it in place
+        other = W.array("v", [D[l] for l in sk["x"]])
+        out = W.call(lambda: x.set_values(other))
+        W.prove("set_values(FlodymArray).raises", out.kind == "raise" and isinstance(out.exc, Exception), detail=repr(out))
+        if not SL.check_wf(W, "set_values(FlodymArray).target", x):
+            return
+        X = SL.lab(W, x)
+        W.forall("set_values(FlodymArray).entries", own, lambda idx: W.num_eq(X.at(dict(zip(sk["x"], idx))), before.at(dict(zip(sk["x"], idx)))), detail="refused: target unchanged")
+        return
     else:
         shape = list(own) + [W.size_of(W.dim("v"))]
     v = W.ndarray("v", shape)
